@@ -13,7 +13,7 @@ from concurrent.futures import ThreadPoolExecutor
 import numpy as np
 import segyio
 
-from .. import env, inputs, par, sched, tlc, writers
+from .. import env, inputs, par, sched, stall, tlc, writers
 
 FINISH = dict(
     level='model_checking',
@@ -288,6 +288,7 @@ def run(run):
             run.drift(f"{label} cap={cap}: executed actions differ from the model path at step "
                       f"{next((i for i, (x, y) in enumerate(zip(r['acts'], spec)) if x != y), len(spec))}")
         traces.setdefault((ci, cap), []).append(r['trace'])
+    stall_pass(run, cfgs, refs)
     # ---- code -> spec: validate every executed trace against Trace_Writer
     tjobs = list(traces.items())
 
@@ -322,6 +323,47 @@ def run(run):
                 run.drift(f'{label} cap={cap}: trace {k} rejected by Trace_Writer at line {got}')
 
 
+def stall_run(item):
+    ci, cap, target = item
+    label, thunk, rate = par.G['configs'][ci]
+    d = env.subdir(f'c16s{os.getpid()}')
+    p = os.path.join(d, 'o.sgz')
+    if os.path.exists(p):
+        os.remove(p)
+    with env.quiet():
+        r = stall.execute(lambda: thunk(p, cap), p, target)
+    ref = par.G['ref'].get((ci, cap))
+    return {'keys': r['keys'] if target is None else None, 'same': ref is None or r['data'] == ref, 'len': len(r['data']), 'late': r['late'],
+            'changed': r['changed_after_return'], 'error': r['error'], 'thread_errors': r['thread_errors']}
+
+
+def stall_pass(run, cfgs, refs):
+    """protocol-independent fallback: hold one thread at one point of the real, free-running pipeline"""
+    quick = run.tier == 'quick'
+    items = []
+    for (ci, cap) in sorted(refs):
+        if quick and cap == 2:
+            continue
+        dry = stall_run((ci, cap, None))
+        keys = dry['keys']
+        if quick and len(keys) > 40:       # first and last operations of every thread: start-up and the hand-over of the last block
+            per = {}
+            for k in keys:
+                per.setdefault((k[0], k[1]), []).append(k)
+            keys = [k for v in per.values() for k in (v[:2] + v[-3:])]
+            keys = [list(x) for x in sorted({tuple(k) for k in keys})]
+        items += [(ci, cap, k) for k in keys]
+    for (ci, cap, target), r in zip(items, par.pmap(stall_run, items, chunksize=2)):
+        case = {'config': cfgs[ci][0], 'cap': cap, 'schedule': {'kind': 'stall', 'spec': target}}
+        run.case(case)
+        if isinstance(r, par.Crash):
+            run.fail('C16.terminates', case, str(r), 'returned')
+            continue
+        run.check(r['error'] is None, 'C16.terminates', case, r['error'], 'returned')
+        run.check(r['late'] == 0 and not r['changed'], 'C16.no-late-write', case, {'late': r['late'], 'changed': r['changed'], 'thread': r['thread_errors']}, 0)
+        run.check(r['same'], 'C16.same-file', case, r['len'], 'the sequential execution\'s file')
+
+
 def const_from_acts(acts):
     return {'N': acts.count('MPut'), 'NFooter': acts.count('MFooter'), 'Patch': 'MCount' in acts}
 
@@ -336,6 +378,12 @@ def replay(run, rep):
     ref = run_schedule((ci, cap, 'sequential', None))
     par.G['ref'][(ci, cap)] = ref['data']
     s = case['schedule']
+    if isinstance(s, dict) and s.get('kind') == 'stall':
+        r = stall_run((ci, cap, s['spec']))
+        run.check(r['error'] is None, 'C16.terminates', case, r['error'], 'returned')
+        run.check(r['late'] == 0 and not r['changed'], 'C16.no-late-write', case, r['late'], 0)
+        run.check(r['same'], 'C16.same-file', case, r['len'], 'sequential file')
+        return
     if s == 'sequential':
         r = ref
     elif s['kind'] == 'seed':
